@@ -58,9 +58,10 @@ DISTS = [0, 0.3, 1, 1.95, 2.5, 2.95, 3.95, 5]       # x.9: just below a whole nu
 # extra query segments (lattice units): oblique, along grid lines, through corners, degenerate, ending on the outer border
 QSEG = [[(0.25, 0.5), (3.75, 1.5)], [(0.5, 3.5), (3.5, 0.5)], [(1, 0), (1, 4)], [(0, 2), (4, 2)], [(4, 0), (0, 4)],
         [(3.3, 0.2), (0.1, 3.9)], [(0.5, 0.5), (0.5, 0.5)], [(2, 2), (2, 2)], [(2.5, 1.5), (2.5, 3.0)]]
-KINDS = ["tc2", "tc3", "net_post", "net_pre"]
+KINDS = ["tc2", "tc3", "net_post", "net_pre", "net_rebuilt"]
 
 OBLIGATIONS = {
+    "network_index_rebuilt_after_an_edge_was_added": "a network was indexed, got an edge that sticks out of the indexed extent, and was indexed again",
     "decimal_coordinates": "an index over decimal coordinates of mixed sign (extent [-5, 5.7] x [-4.9, 2.6]) with margin 0 and the default margin",
     "on_feature_query_on_a_cell_border": "a point query at a vertex / segment middle of a feature that lies on a cell border returned that feature",
     "vertex_on_cell_corner": "a feature vertex lies on a corner of the grid",
@@ -101,9 +102,9 @@ def _tier_plan(tier):
     ex = list(range(5))
     if tier == "quick":
         return [("tc2", "two", ex, False), ("tc3", "sub3", ex, True), ("net_post", "sub3", ex, False),
-                ("net_pre", "sub3", ex, False), ("tc3", "sub2", [5], False), ("tc3", "diag2", [5], False), ("tc2", "dots", [0, 1, 2], False)]
+                ("net_pre", "sub3", ex, False), ("net_rebuilt", "sub3", [0, 3], False), ("tc3", "sub2", [5], False), ("tc3", "diag2", [5], False), ("tc2", "dots", [0, 1, 2], False)]
     return [("tc2", "all", ex, False), ("tc3", "two", ex, True), ("net_post", "two", ex, False),
-            ("net_pre", "two", ex, False), ("tc3", "sub3", [5], False), ("net_pre", "sub2", [5], False),
+            ("net_pre", "two", ex, False), ("net_rebuilt", "two", ex, False), ("tc3", "sub3", [5], False), ("net_pre", "sub2", [5], False),
             ("tc2", "dots", ex, True)]
 
 
@@ -176,6 +177,8 @@ def _polys(kind, second):
         return [list(DIAG), list(second)]
     if kind == "tc3":
         return [list(THIRD), list(DIAG), list(second)]
+    if kind == "net_rebuilt":
+        return [list(second), list(THIRD), list(DIAG)]    # features are numbered in the order the edges are added
     return [list(DIAG), list(second), list(THIRD)]        # networks: the diagonal first, it fixes the extent
 
 
@@ -207,6 +210,15 @@ def _make(variant, kind, polys, res, margin):
     if kind == "net_post":
         for k, p in enumerate(polys):
             _add_edge(net, variant, p, k)
+        net.createSpatialIndex(r, margin, False)
+        return net.spatial_index
+    if kind == "net_rebuilt":
+        # an index is built over all polylines but the last (the diagonal, which sticks out of that extent); then the diagonal
+        # is added and the index is built again: the second index is the one that is queried
+        for k, p in enumerate(polys[:-1]):
+            _add_edge(net, variant, p, k)
+        net.createSpatialIndex(r, margin, False)
+        _add_edge(net, variant, polys[-1], len(polys) - 1)
         net.createSpatialIndex(r, margin, False)
         return net.spatial_index
     _add_edge(net, variant, polys[0], 0)
@@ -419,6 +431,8 @@ def build(spec, ctx):
         ctx.oblige("network_index_after_edges")
     if kind == "net_pre":
         ctx.oblige("network_add_edge_after_index")
+    if kind == "net_rebuilt":
+        ctx.oblige("network_index_rebuilt_after_an_edge_was_added")
     e = G["eps"]
     for pts in feats:
         for (x, y) in pts:
